@@ -163,6 +163,47 @@ impl Monitor for M {
 }
 
 // ------------------------------------------------------------------------------------------
+// coverage-guided stage
+// ------------------------------------------------------------------------------------------
+
+/// Entry point of the libFuzzer target `c06_statements` (harness/vfuzz): the fuzzer's text, split into at most 8 lines,
+/// each line one register statement checked by `Runner::check_statement` on a fresh VM - the same oracle as `vm_random`
+/// (the transcription of TeX's scanning and arithmetic predicts registers, `\the` text and error classes; statements the
+/// model does not cover are skipped).
+pub fn fuzz_one(data: &[u8], obs: &mut Obs) {
+    let Ok(text) = std::str::from_utf8(data) else {
+        return;
+    };
+    let mut runner = vmlevel::Runner::new();
+    for line in text.split('\n').take(8) {
+        if line.is_empty() {
+            continue;
+        }
+        runner.check_statement(obs, line, "fuzz");
+    }
+}
+
+/// Seed corpus (generated statements, a few per input) and dictionary for the libFuzzer target.
+pub fn fuzz_seeds() -> vcore::fuzzglue::Seeds {
+    let mut inputs = vec![];
+    for k in 0..600u64 {
+        let mut rng = Rng::new(0xC06 + k);
+        let n = rng.range_usize(1, 4);
+        let v: Vec<String> = (0..n).map(|_| gen::Gen::new(&mut rng).statement()).collect();
+        inputs.push(v.join("\n").into_bytes());
+    }
+    let dictionary = [
+        "\\count", "\\dimen", "\\skip", "\\advance", "\\multiply", "\\divide", " by ", "=", "plus", "minus", "fil", "fill", "filll",
+        "true", "pt", "pc", "in", "bp", "cm", "mm", "dd", "cc", "sp", "em", "ex", "mu", "-", "+", "\"", "'", "`", ".", ",", "16383.99999",
+        "2147483647", "1073741823", "\"7FFFFFFF", "'17777777777", "32767", "65536", "\\relax", " ",
+    ]
+    .iter()
+    .map(|s| s.to_string())
+    .collect();
+    vcore::fuzzglue::Seeds { inputs, dictionary }
+}
+
+// ------------------------------------------------------------------------------------------
 // vm_random
 // ------------------------------------------------------------------------------------------
 
